@@ -60,6 +60,18 @@ pub fn id_of(a: IpAddr) -> u64 {
     }
 }
 
+thread_local! {
+    /// how addresses are printed: `false` = the abstract identifiers of this component (`id_of`),
+    /// `true` = the address as a number (what the wire and stack models use)
+    static ADDR_NUM: std::cell::Cell<bool> = const { std::cell::Cell::new(false) };
+}
+pub fn set_addr_num(b: bool) {
+    ADDR_NUM.with(|x| x.set(b));
+}
+pub fn host_str(a: IpAddr) -> String {
+    if ADDR_NUM.with(std::cell::Cell::get) { crate::wire_enc::addr_num(a).to_string() } else { id_of(a).to_string() }
+}
+
 impl Cfg {
     pub fn line(&self, t0: u64) -> String {
         let pd = match &self.pd {
@@ -219,14 +231,14 @@ pub fn show_slot(s: &ProbeStatus) -> String {
             };
             format!("C({}/{}/{}/{}/{}/{}/{}/0/{}/{}/{kind}/{}/{}/{}/{})",
                 c.sequence.0, c.identifier.0, c.src_port.0, c.dest_port.0, c.ttl.0, c.round.0, clock::ns_of(c.sent),
-                id_of(c.host), clock::ns_of(c.received), opt(&c.tos.map(|t| t.0)),
+                host_str(c.host), clock::ns_of(c.received), opt(&c.tos.map(|t| t.0)),
                 opt(&c.expected_udp_checksum.map(|x| x.0)), opt(&c.actual_udp_checksum.map(|x| x.0)),
                 opt(&c.extensions.as_ref().map(|e| e.extensions.len())))
         }
     }
 }
 
-fn show_round(r: &Round<'_>) -> String {
+pub fn show_round(r: &Round<'_>) -> String {
     let reason = match r.reason { trippy_core::CompletionReason::TargetFound => "T", _ => "L" };
     format!("{reason}/{}/[{}]", r.largest_ttl.0, r.probes.iter().map(show_slot).collect::<Vec<_>>().join(";"))
 }
